@@ -288,6 +288,67 @@ def variant_restereo(d: Drawing, out: Path, rng) -> Path:
     return write_tree(t, out)
 
 
+def variant_reorder(d: Drawing, out: Path, rng) -> Path:
+    """the SAME drawing written down in another order: the `<n>` elements of every fragment (nested ones too) are
+    shuffled, and every bond is, at random, written from its other end (B <-> E, Begin <-> End marks follow)"""
+    t = copy.deepcopy(d.tree)
+    for fr in t.getroot().iter("fragment"):
+        kids = list(fr)
+        nodes = [k for k in kids if k.tag == "n"]
+        if len(nodes) < 2:
+            continue
+        shuffled = list(nodes)
+        rng.shuffle(shuffled)
+        it = iter(shuffled)
+        new = [next(it) if k.tag == "n" else k for k in kids]
+        for k in kids:
+            fr.remove(k)
+        for k in new:
+            fr.append(k)
+    for b in t.getroot().iter("b"):
+        if b.get("B") is not None and b.get("E") is not None and rng.chance(1, 2):
+            disp = b.get("Display")
+            if disp is None or disp in BEGIN_END or disp in ("Bold", "Hash", "Dash"):
+                bb, ee = b.get("B"), b.get("E")
+                b.set("B", ee)
+                b.set("E", bb)
+                if disp in BEGIN_END:
+                    b.set("Display", BEGIN_END[disp])
+    return write_tree(t, out)
+
+
+AP_NODE_TYPES = {"ExternalConnectionPoint", "Fragment", "Nickname", "GenericNickname", "Unspecified"}
+
+
+def atom_node_ids(frag_elt):
+    """the node id behind every atom of the parsed molecule, in atom order: nodes in document order (hapto
+    place-holders make no atom); every nested fragment replaces its place-holder node — the place-holder and the nested
+    fragment's first attachment point disappear, the rest of the nested fragment is appended.
+    Returns a list of (id, is_attachment_point) or None when the order cannot be told (no attachment point inside)."""
+    ids = [(n.get("id"), n.get("NodeType") in AP_NODE_TYPES) for n in frag_elt.findall("n") if n.get("NodeType") != "MultiAttachment"]
+    for n in frag_elt.findall("n"):
+        sub = n.find("fragment")
+        if sub is None:
+            continue
+        sub_ids = atom_node_ids(sub)
+        if sub_ids is None:
+            return None
+        ap = next((i for i, (_, isap) in enumerate(sub_ids) if isap), None)
+        ph = next((i for i, (x, _) in enumerate(ids) if x == n.get("id")), None)
+        if ap is None or ph is None:
+            return None
+        ids = ids[:ph] + ids[ph + 1:] + sub_ids[:ap] + sub_ids[ap + 1:]
+    return ids
+
+
+def constitution_by_id(c, ids):
+    """constitution keyed by node ids instead of atom positions (labels that are node ids blanked)"""
+    c = strip_id_labels(c, True)
+    atoms = {ids[i]: a for i, a in enumerate(c["atoms"])}
+    bonds = sorted((tuple(sorted((ids[i], ids[j]))), bt, round(float(fo), 9)) for i, j, bt, fo in c["bonds"])
+    return {"atoms": atoms, "bonds": bonds, "charge": c["charge"], "mult": c["mult"], "ap": sorted(ids[i] for i in c["ap"])}
+
+
 def variant_permute(d: Drawing, out: Path, rng) -> Path:
     """shuffle the children of every page and of every group holding several fragments/labels"""
     t = copy.deepcopy(d.tree)
